@@ -317,7 +317,47 @@ func runC11(c *Ctx) {
 					}
 				}
 				c.check(okc, "R11.2", construct, c.ipos(s), "only when the reply carries an error", "an error value is constructed although the reply's error may be nil: a successful call returns a non-nil error (or panics)")
+				// … and whenever it does: no further test of the error object's content decides whether the
+				// caller gets an error (an error with code 0 and an empty message is still the handler's error)
+				var extra ssa.Value
+				for _, cf := range expandConds(impliedConds(s.Block())) {
+					v := cf.Cond
+					if bo, ok := v.(*ssa.BinOp); ok && (isNilConst(bo.X) || isNilConst(bo.Y)) {
+						continue // nil tests
+					}
+					if c.dependsOn(v, func(x ssa.Value) bool { return sameVal(x, rcv) }, 0, map[ssa.Value]bool{}) {
+						extra = v
+					}
+				}
+				c.check(extra == nil, "R11.2", construct+" (for every non-nil reply error)", c.ipos(s), "conditional only on the reply error being non-nil", "whether the caller gets an error also depends on the content of the reply's error object (an 'empty' one is taken for success): a handler error with code 0 and an empty message reaches the caller as nil")
 			}
+			// the interface test is made on the type of the very value that is then asserted: testing the
+			// registered type t instead of reflect.New(t)'s type skips the conversion for value-form
+			// registrations whose methods have pointer receivers
+			p.coneInstrs(val, func(in ssa.Instruction) {
+				ta, ok := in.(*ssa.TypeAssert)
+				if !ok || ta.CommaOk {
+					return
+				}
+				ic, ok := ta.X.(*ssa.Call)
+				if !ok || calleeName(ic) != "(reflect.Value).Interface" {
+					return
+				}
+				asserted := ic.Common().Args[0]
+				construct := fmt.Sprintf("%s: interface test before the assertion", fname(in.Parent()))
+				tested := false
+				for _, cf := range expandConds(impliedConds(ta.Block())) {
+					call, ok := cf.Cond.(*ssa.Call)
+					if !ok || !cf.True || !call.Common().IsInvoke() || call.Common().Method.Name() != "Implements" {
+						continue
+					}
+					tc, ok := call.Common().Value.(*ssa.Call)
+					if ok && calleeName(tc) == "(reflect.Value).Type" && sameVal(tc.Common().Args[0], asserted) {
+						tested = true
+					}
+				}
+				c.check(tested, "R11.2", construct, c.ipos(ta), "Implements is asked of the asserted value's own type", "the value is asserted to an interface that was tested on a different type (the registered type instead of the type of the freshly made value): for a type registered in value form whose decoding methods have pointer receivers the test fails, the conversion is skipped, and the caller gets an empty value of the right type with the content lost")
+			})
 		}
 	}
 
@@ -639,6 +679,12 @@ func (c *Ctx) writerBytesJSON(rule string) {
 			uses := false
 			for _, a := range cm.Args {
 				if isW(a.Type()) {
+					// io.Discard is nobody's message writer (io.Copy(io.Discard, resp.Body) drains a body)
+					if ld, ok := stripConv(a).(*ssa.UnOp); ok && ld.Op == token.MUL {
+						if g, ok := ld.X.(*ssa.Global); ok && g.Pkg != nil && g.Pkg.Pkg.Path() == "io" && g.Name() == "Discard" {
+							continue
+						}
+					}
 					uses = true
 				}
 			}
